@@ -77,6 +77,28 @@ def directed() -> list[dict[str, Any]]:
                 "outputs": {names[0]: 4, names[1]: 5, names[2]: 6, names[3]: 8},
                 "vseed": 7700 + j, "profile": "directed"}
         out.append({"kind": "prog", "spec": spec})
+    # hand-written loopy kernels with TWO results, both used (results are held in a set of
+    # names inside the call node): one call and two calls
+    for j in range(2):
+        inputs = [{"id": 0, "kind": "ph", "shape": [3], "dtype": "float64", "pool": "dyadic",
+                   "name": "x0"},
+                  {"id": 1, "kind": "ph", "shape": [4], "dtype": "float64", "pool": "dyadic",
+                   "name": "x1"}]
+        nodes = [{"id": 2, "op": "call_loopy", "args": [0, 1], "params": {"kernel": "outer"}},
+                 {"id": 3, "op": "getitem_named", "args": [2], "params": {"name": "out"}},
+                 {"id": 4, "op": "getitem_named", "args": [2], "params": {"name": "out2"}},
+                 {"id": 5, "op": "sum", "args": [3], "params": {"axis": [1]}},
+                 {"id": 6, "op": "sub", "args": [5, 4], "params": {}}]
+        outs = {"diff": 6}
+        if j == 1:
+            nodes += [{"id": 7, "op": "call_loopy", "args": [4, 0], "params": {"kernel": "outer"}},
+                      {"id": 8, "op": "getitem_named", "args": [7], "params": {"name": "out2"}},
+                      {"id": 9, "op": "getitem_named", "args": [7], "params": {"name": "out"}},
+                      {"id": 10, "op": "sum", "args": [9], "params": {"axis": [0]}},
+                      {"id": 11, "op": "add", "args": [8, 10], "params": {}}]
+            outs["second"] = 11
+        out.append({"kind": "prog", "spec": {"inputs": inputs, "nodes": nodes, "outputs": outs,
+                                             "vseed": 7800 + j, "profile": "directed"}})
     return out
 
 
